@@ -72,6 +72,7 @@ ALL.update(TAILS)
 CFG = [{}]            # configuration of the agent the next deliver() builds (task_cfg switches it)
 PEER_OPEN = ['OPEN_OK']     # the OPEN the peer sends in establish()
 M = dict(M)
+M['OPEN_MPONLY'] = wire.open_msg(65002, 90, 0x0A000002, [wire.cap_mp(1, 1)])
 M['OPEN_MANYCAPS'] = wire.open_msg(65002, 90, 0x0A000002, [wire.cap_mp(1, 1), wire.cap_mp(2, 1), wire.cap(wire.CAP_RR), wire.cap(wire.CAP_RR_OLD), wire.cap(70),
                                                         wire.cap(6), wire.cap(67), wire.cap(200, b'\x01\x02'), wire.cap_gr(0x4078, [(1, 1, 0x80)]),
                                                         wire.cap_addpath([(1, 1, 3)]), wire.cap_llgr([(1, 1, 0, 3600)])])
@@ -393,7 +394,9 @@ def task_cfg(args):
     frames['NOTIF4097'] = wire.frame(wire.NOTIFICATION, b'\x06\x02' + b'\x00' * (4097 - 21))
     base = {}
     try:
-        for ci, cfg in enumerate([{}] + CAP_CFGS + [{'peer_open': 'OPEN_MANYCAPS'}]):   # (a peer without the 4-octet-AS capability changes what an UPDATE body means: not a framing matter)
+        # (... and a peer that announces nothing but IPv4 unicast and 4-octet AS numbers, alone and together with each poor local
+        # configuration: a refresh type that NEITHER side announced is still a known message type for the deframer)
+        for ci, cfg in enumerate([{}] + CAP_CFGS + [{'peer_open': 'OPEN_MANYCAPS'}, {'peer_open': 'OPEN_MPONLY'}] + [dict(c, peer_open='OPEN_MPONLY') for c in CAP_CFGS]):   # (a peer without the 4-octet-AS capability changes what an UPDATE body means: not a framing matter)
             cfg = dict(cfg)
             PEER_OPEN[0] = cfg.pop('peer_open', 'OPEN_OK')
             CFG[0] = cfg
@@ -421,7 +424,7 @@ def task_cfg(args):
     finally:
         CFG[0] = {}
         PEER_OPEN[0] = 'OPEN_OK'
-    return v, nd, classes, len(frames) * (2 + len(CAP_CFGS))
+    return v, nd, classes, len(frames) * (3 + 2 * len(CAP_CFGS))
 
 
 def run(tier, seed):
